@@ -238,28 +238,33 @@ PROPS["C18"] = dict(
     runs={
         "quick": [
             dict(harness="VerifHarness_C18_quick", reach=["destructive", "additive"]),
+            dict(pkg="ariga.io/atlas/sql/sqlite/sqlitecheck", hdir="sqlitecheck", harness="VerifHarness_C18_rebuild2", reach=["destructive", "additive"]),
             dict(harness="VerifHarness_C18_witness", role="witness", key="C18-order-insensitive-spans"),
         ],
         "thorough": [
             dict(harness="VerifHarness_C18_thorough", reach=["destructive", "additive"]),
+            dict(pkg="ariga.io/atlas/sql/sqlite/sqlitecheck", hdir="sqlitecheck", harness="VerifHarness_C18_rebuild3", reach=["destructive", "additive"]),
             dict(harness="VerifHarness_C18_witness", role="witness", key="C18-order-insensitive-spans"),
         ],
     },
     bounds={
         "quick": "files of 1..3 statements over two tables (t0 with columns c0,c1; t1), each statement one of CREATE/DROP TABLE t0|t1, "
-                 "ALTER t0 ADD/DROP COLUMN c0|c1 (dropped column virtual or not), ALTER t0 ADD INDEX; every combination of what exists before the file",
-        "thorough": "same with files of 1..5 statements",
+                 "ALTER t0 ADD/DROP COLUMN c0|c1 (dropped column virtual or not), ALTER t0 ADD INDEX; every combination of what exists before the file; "
+                 "SQLite rebuild recognition: files of 1..2 units, each a 4-statement table rebuild (keeping all columns / losing one / rename seen as "
+                 "drop+add), a plain DROP TABLE or a CREATE TABLE, through the whole SQLite analyzer chain",
+        "thorough": "same with files of 1..5 statements and 1..3 rebuild units",
     },
     assumptions=[
         "changes are given per statement as schema.Change lists (how they are derived from SQL on a dev database is outside the claim)",
         "only valid sequences (no CREATE of an existing table, no DROP of a missing one...) are explored",
         "inputs are structural: explored exhaustively by path forking (the solver has no data constraints here)",
     ],
-    outside="DevLoader (statement execution / inspection / diff on a dev database), SQLite table-rebuild recognition, sqliteparse, "
+    outside="DevLoader (statement execution / inspection / diff on a dev database), sqliteparse, "
             "--latest N windowing, CLI exit status, schema drops (DS101)",
     claim="For every file within the bounds the real destructive.Analyzer (with sqlcheck.File span tracking) reports DS102/DS103 at the position of "
           "exactly the statements that drop a table / non-virtual column not created earlier in the same file, and fails iff there is one; "
-          "exhaustive over the bounded statement sequences. The listed known finding is exactly the set of drop statements for which the "
+          "exhaustive over the bounded statement sequences; with the SQLite analyzer chain a table rebuild is reported iff it loses a column, at the "
+          "position of its first statement, and statements next to a rebuild are still analysed. The listed known finding is exactly the set of drop statements for which the "
           "whole-file (order-insensitive) span verdict differs from the position-aware one; all other statements, also of the same file, are "
           "checked exactly.",
     note="Structural enumeration (exhaustive: true) executed on the real SSA; reference = ordered replay in the harness.",
